@@ -1,21 +1,56 @@
 #!/usr/bin/env python3
-"""Regenerate lean/C2paModel/Gen/C24SharedState.lean: every process-wide item of sdk/src.
+"""Regenerate lean/C2paModel/Gen/C24SharedState.lean from /repo/sdk/src (C24 / C38).
 
-Scans (outside `#[cfg(test)]` modules and verif_hooks) for
-  * `static NAME: T = …`            (const if T has no interior mutability, else mutableGlobal / lazyConst)
-  * `static mut NAME`               (mutableGlobal)
-  * `lazy_static! { static ref NAME: T = … }`  (lazyConst unless T is Mutex/RwLock/Atomic/RefCell → mutableGlobal)
-  * `thread_local! { static NAME … }` (threadLocal)
-  * in context.rs: `OnceLock<…>` enum payloads and `Atomic*` struct fields (perContextCell)
-Fails closed when a `static` line cannot be parsed.
+Scope: every source file reachable from lib.rs through `mod x;` declarations that are not
+`#[cfg(test)]` / verification-hook items.  Test items are removed by *brace-matched* blanking
+(c24_rustscan.strip_test_items), so code that follows an inline test module is still seen.  `#[cfg]`
+conditions other than `test` are NOT evaluated: items of every feature / target are inventoried.
+
+Tables
+  sharedState    every `static` (plain, `static mut`, `lazy_static!`, `thread_local!`, also inside fn
+                 bodies) with a syntactic kind, plus the interior-mutable cells of `Context`
+  tlsTouchers    every fn that (transitively, name-resolved call graph) reaches a `thread_local!`
+                 static of the SDK: (file, Type::fn, writes)
+  tlsDynTouchers trait-impl methods with a `self` receiver (dynamic dispatch) that reach it; not
+                 propagated further
+  ctxOrTls       one row per fn that takes a context or is in tlsTouchers:
+                 (file, Type::fn, takesContext, reachesTls); takesContext = has a parameter whose
+                 type mentions `Context` / `Settings`, or a `self` receiver of a type that has a
+                 `Context` / `Settings` field ("context carrier")
+  contextCarriers the carrier types
+  settingsApi    every `pub fn` of `impl Settings`, `impl Context`, `impl IntoSettings for _`:
+                 (file, Type::fn, deprecated, reachesTls, writesTls)
+  interiorFields every struct field / enum payload whose type mentions an interior-mutability or
+                 lazy-cell wrapper: (file, Type::field, wrapper)
+  lazyInits      per lazily initialised static: does the initialiser mention settings / context /
+                 thread-local state, environment, clock or randomness
+  cacheFields / cacheFieldWriters  struct fields named like a cache (`cache`, `memo`) and every fn
+                 that writes one (insert / remove / clear / assignment / `&mut` borrow)
+  nondetSites    fns that read the clock, the environment or a random source, and fns that iterate
+                 a `HashMap` / `HashSet` (field declared in the same file, parameter or local of that type)
+Fails closed (exit 1) on anything it cannot bracket-match, on unresolved `mod` declarations, and on a
+use of a thread-local static it cannot classify.
 """
 import hashlib, json, os, re, sys
 
+sys.path.insert(0, os.path.dirname(os.path.abspath(__file__)))
+import c24_rustscan as R  # noqa: E402
+
 ROOT = os.path.dirname(os.path.dirname(os.path.abspath(__file__)))
-SRC = "/repo/sdk/src"
-OUT = os.path.join(ROOT, "lean/C2paModel/Gen/C24SharedState.lean")
+SRC = os.environ.get("C24_SRC") or "/repo/sdk/src"
+OUT = os.environ.get("C24_OUT") or os.path.join(ROOT, "lean/C2paModel/Gen/C24SharedState.lean")
 MUT = re.compile(r"\b(Mutex|RwLock|Atomic\w+|RefCell|Cell|UnsafeCell)\b")
-LAZY = re.compile(r"\b(LazyLock|Lazy|OnceLock|OnceCell)\b")
+LAZY = re.compile(r"\b(LazyLock|LazyCell|Lazy|OnceLock|OnceCell|Once)\b")
+CTX_TY = re.compile(r"\b(Context|Settings)\b")
+SETTINGS_WORDS = re.compile(r"\b(settings|Settings|SETTINGS|Context|context|get_thread_local_settings|get_thread_local_value)\b")
+ENV_WORDS = re.compile(r"\benv\s*::\s*(var|vars|var_os|args)\b|\bSystemTime\b|\bInstant\s*::\s*now\b|\bUtc\s*::\s*now\b|\bLocal\s*::\s*now\b|\bthread_rng\b|\bOsRng\b|\bgetrandom\b|\bUuid\s*::\s*new_v4\b|\bcurrent_dir\b")
+NONDET = [
+    ("clock", re.compile(r"\bSystemTime\s*::\s*now\b|\bInstant\s*::\s*now\b|\bUtc\s*::\s*now\b|\bLocal\s*::\s*now\b|\bOffsetDateTime\s*::\s*now_utc\b|\bDate\s*::\s*now\b|\bDate\s*::\s*new_0\b")),
+    ("env", re.compile(r"\benv\s*::\s*(?:var|vars|var_os|args|current_dir|temp_dir)\b")),
+    ("random", re.compile(r"\bthread_rng\b|\bOsRng\b|\bgetrandom\b|\bUuid\s*::\s*new_v4\b|\brand\s*::\s*random\b|\bSystemRandom\b|\bRandomState\b|\bfill_bytes\b")),
+]
+HASH_TY = re.compile(r"\b(HashMap|HashSet)\s*<")
+ITER_METHODS = r"(?:iter|iter_mut|values|values_mut|keys|into_iter|into_values|into_keys|drain)"
 
 
 def fail(m):
@@ -23,88 +58,533 @@ def fail(m):
     sys.exit(1)
 
 
-def strip_tests(text):
-    cuts = [m.start() for m in re.finditer(r"#\[cfg\(test\)\]\s*\n\s*(pub(\(crate\))? )?mod \w+", text)]
-    return text if not cuts else text[:cuts[0]]
+# --------------------------------------------------------------------------------------------
+# sources
+
+
+def live_files():
+    """rel path -> (raw, blanked+test-stripped) for the module tree below lib.rs."""
+    files, todo = {}, ["lib.rs"]
+    while todo:
+        rel = todo.pop()
+        if rel in files:
+            continue
+        raw = open(os.path.join(SRC, rel), errors="replace").read()
+        try:
+            b = R.strip_test_items(R.blank(raw))
+            R.build_pairs(b)
+        except R.ScanError as e:
+            fail(f"{rel}: {e}")
+        files[rel] = (raw, b)
+        base = os.path.dirname(rel)
+        stem = os.path.basename(rel)[:-3]
+        d = base if stem in ("lib", "mod") else os.path.join(base, stem)
+        for m in re.finditer(r"\bmod\s+(\w+)\s*;", b):
+            n = m.group(1)
+            pre = raw[max(0, m.start() - 200):m.start()]
+            pm = re.search(r'#\[path\s*=\s*"([^"]+)"\]\s*(?:pub(?:\([a-z]+\))?\s+)?$', pre)
+            cands = [os.path.join(d, n + ".rs"), os.path.join(d, n, "mod.rs")]
+            if pm:
+                cands.insert(0, os.path.normpath(os.path.join(base, pm.group(1))))
+            for c in cands:
+                if os.path.exists(os.path.join(SRC, c)):
+                    todo.append(c)
+                    break
+            else:
+                fail(f"{rel}: cannot resolve `mod {n};`")
+    return files
+
+
+def attrs_before(t, back, pos):
+    """Text of the attribute groups (`#[…]`) and qualifiers directly before offset `pos`
+    (`pos` = start of `fn` / `static` / `struct` keyword)."""
+    i = pos
+    parts = []
+    while True:
+        j = i - 1
+        while j >= 0 and t[j].isspace():
+            j -= 1
+        if j < 0:
+            break
+        if t[j] == "]" and j in back:
+            o = back[j]
+            if o >= 1 and t[o - 1] == "#":
+                parts.append(t[o - 1:j + 1])
+                i = o - 1
+                continue
+            if o >= 2 and t[o - 2:o] == "#!":
+                break
+            break
+        if t[j] == ")" and j in back:  # pub(crate)
+            o = back[j]
+            k = o - 1
+            while k >= 0 and t[k].isspace():
+                k -= 1
+            if t[max(0, k - 2):k + 1] == "pub":
+                parts.append(t[k - 2:j + 1])
+                i = k - 2
+                continue
+            break
+        m = re.search(r"\b(pub|async|const|unsafe|extern|default)$", t[max(0, j - 8):j + 1])
+        if m:
+            parts.append(m.group(1))
+            i = j + 1 - len(m.group(1))
+            continue
+        if t[j] == '"':  # extern "C"
+            k = t.rfind('"', 0, j)
+            if k >= 0:
+                i = k
+                continue
+        break
+    return " ".join(reversed(parts))
+
+
+# --------------------------------------------------------------------------------------------
+# statics
+
+
+def static_rows(rel, t, fwd):
+    rows, lazy_inits = [], []
+    tl_spans, lz_spans = [], []
+    for m in re.finditer(r"\bthread_local!\s*([\(\{\[])", t):
+        tl_spans.append((m.start(), fwd[m.end() - 1]))
+    for m in re.finditer(r"\blazy_static!\s*([\(\{\[])", t):
+        lz_spans.append((m.start(), fwd[m.end() - 1]))
+    n_static_kw = 0
+    for m in re.finditer(r"\bstatic\b", t):
+        # `&'static`, `+ 'static`, `'static` lifetimes are not items
+        if m.start() > 0 and t[m.start() - 1] == "'":
+            continue
+        n_static_kw += 1
+        mm = re.compile(r"static\s+(mut\s+)?(ref\s+)?([A-Za-z_][A-Za-z0-9_]*)\s*:").match(t, m.start())
+        if not mm:
+            # `static move ||` closures / `static async` do not occur in this crate: fail closed
+            fail(f"{rel}: cannot parse `static` item at line {t.count(chr(10), 0, m.start()) + 1}")
+        name = mm.group(3)
+        # type: up to `=` or `;` at bracket depth 0 (angle brackets tracked)
+        k, depth = mm.end(), 0
+        while k < len(t):
+            c = t[k]
+            if c in "([{":
+                k = fwd[k] + 1
+                continue
+            if c == "<":
+                depth += 1
+            elif c == ">" and t[k - 1] not in "-=":
+                depth -= 1
+            elif c in "=;" and depth <= 0:
+                break
+            k += 1
+        ty = t[mm.end():k].strip()
+        # initialiser: up to `;` at depth 0
+        e = k
+        while e < len(t) and t[e] != ";":
+            e = fwd[e] + 1 if t[e] in "([{" else e + 1
+        init = t[k + 1:e] if k < len(t) and t[k] == "=" else ""
+        pos = m.start()
+        if any(a <= pos <= b for a, b in tl_spans):
+            kind = "threadLocal"
+        elif mm.group(1):
+            kind = "mutableGlobal"
+        elif MUT.search(ty):
+            kind = "mutableGlobal"
+        elif any(a <= pos <= b for a, b in lz_spans) or LAZY.search(ty):
+            kind = "lazyConst"
+        else:
+            kind = "const"
+        rows.append((rel, name, kind))
+        if kind == "lazyConst":
+            lazy_inits.append((rel, name, init))
+    return rows, lazy_inits
+
+
+def lazy_init_flags(files, lazy_inits):
+    """(file, name, mentionsSettings, mentionsEnv). For `OnceLock`-style statics the initialiser is
+    the argument of every `NAME.get_or_init(…)` / `get_or_try_init` / `set(…)` in the same file."""
+    out = []
+    for rel, name, init in lazy_inits:
+        t = files[rel][1]
+        fwd, _ = R.build_pairs(t)
+        texts = [init]
+        for m in re.finditer(r"\b" + re.escape(name) + r"\s*\.\s*(?:get_or_init|get_or_try_init|set|get_or_insert_with|call_once)\s*\(", t):
+            texts.append(t[m.end() - 1:fwd[m.end() - 1] + 1])
+        body = "\n".join(texts)
+        # the raw text is needed for string literals? no: only identifiers matter
+        out.append((rel, name, bool(SETTINGS_WORDS.search(body)), bool(ENV_WORDS.search(body))))
+    return out
+
+
+# --------------------------------------------------------------------------------------------
+# structs / enums
+
+
+def type_items(rel, t, fwd):
+    """[(type name, [(field or variant name, type text)])] for structs and enums."""
+    res = []
+    for m in re.finditer(r"\b(struct|enum|union)\s+([A-Za-z_]\w*)", t):
+        kind, name = m.group(1), m.group(2)
+        k = m.end()
+        try:
+            k = R.skip_ws(t, k)
+            if k < len(t) and t[k] == "<":
+                k = R.skip_angle(t, k)
+        except R.ScanError:
+            continue
+        # optional where clause
+        while k < len(t) and t[k] not in "{(;":
+            k += 1
+        if k >= len(t) or t[k] == ";":
+            continue
+        body = t[k + 1:fwd[k]]
+        fields = []
+        if t[k] == "(":
+            for i, p in enumerate(R.split_top(body)):
+                fields.append((str(i), re.sub(r"^\s*(pub(\([a-z ]+\))?\s+)?", "", p.strip())))
+        elif kind in ("struct", "union"):
+            for p in R.split_top(body):
+                p = re.sub(r"#\s*\[[^\]]*\]", " ", p).strip()
+                mm = re.match(r"(?:pub(?:\([a-z ]+\))?\s+)?([A-Za-z_]\w*)\s*:\s*(.*)$", p, re.S)
+                if mm:
+                    fields.append((mm.group(1), mm.group(2).strip()))
+        else:
+            for p in R.split_top(body):
+                p = re.sub(r"#\s*\[[^\]]*\]", " ", p).strip()
+                mm = re.match(r"([A-Za-z_]\w*)\s*([\(\{].*)?$", p, re.S)
+                if mm and mm.group(2):
+                    fields.append((mm.group(1), mm.group(2).strip()))
+        res.append((name, fields))
+    return res
+
+
+def wrapper_of(ty):
+    ws = []
+    for rx in (MUT, LAZY):
+        for m in rx.finditer(ty):
+            if m.group(1) not in ws:
+                ws.append(m.group(1))
+    return "+".join(ws)
+
+
+# --------------------------------------------------------------------------------------------
+# call graph
+
+
+class FnInfo:
+    pass
+
+
+def collect_fns(files):
+    fns = []
+    for rel, (raw, t) in sorted(files.items()):
+        fwd, back = R.build_pairs(t)
+        try:
+            parsed = R.parse_fns(rel, t, fwd)
+        except R.ScanError as e:
+            fail(f"{rel}: {e}")
+        for f in parsed:
+            a = attrs_before(t, back, f.sig_start)
+            g = FnInfo()
+            g.file, g.name, g.impl, g.trait, g.has_self = rel, f.name, f.impl, f.trait, f.has_self
+            g.params = f.params
+            g.attrs = a
+            g.is_pub = bool(re.search(r"\bpub\b(?!\s*\()", a))
+            g.deprecated = "deprecated" in a
+            g.async_generic = "async_generic" in a
+            g.body = t[f.body_start:f.body_end + 1]
+            g.span = (f.sig_start, f.body_end)
+            g.line = f.line
+            g.qual = (f.impl + "::" if f.impl else "") + f.name
+            fns.append(g)
+    return fns
+
+
+CRATE_MODS = set()
+USES = {}
+
+
+def foreign_import(file, name):
+    """Is `name` imported into `file` from outside the crate (`use tempfile::Builder;`)?"""
+    if file not in USES:
+        t = files_blank[file]
+        USES[file] = [m.group(1) for m in re.finditer(r"\buse\s+([^;]+);", t)]
+    for u in USES[file]:
+        if not re.search(r"\b" + name + r"\b(?!\s*::)", u):
+            continue
+        root = re.match(r"\s*(?:::)?\s*(\w+)", u)
+        if root and root.group(1) not in ("crate", "super", "self") and root.group(1) not in CRATE_MODS:
+            return True
+    return False
+
+
+def path_root(b, pos):
+    """`pos` = start of an identifier; if it is preceded by `a::b::`, the first segment `a`."""
+    j = pos
+    root = None
+    while True:
+        k = j - 1
+        while k >= 0 and b[k].isspace():
+            k -= 1
+        if k >= 1 and b[k - 1:k + 1] == "::":
+            k -= 2
+            while k >= 0 and b[k].isspace():
+                k -= 1
+            e = k + 1
+            while k >= 0 and (b[k].isalnum() or b[k] == "_"):
+                k -= 1
+            if e == k + 1:
+                return root  # `<T as X>::` or `::name`
+            root = b[k + 1:e]
+            j = k + 1
+        else:
+            return root
+
+
+def is_foreign_root(root):
+    return root is not None and root not in ("crate", "super", "self", "Self") and root not in CRATE_MODS and not root[:1].isupper()
+
+
+def references(caller, target):
+    """Does the body of `caller` mention `target` in a way that can be a call or a function value?
+    Over-approximate, syntactic:
+      * associated fn / method `T::name`: `T::name` or (inside `impl T`) `Self::name`, unless `T` is
+        imported into the caller's file from another crate or written with a foreign path root
+        (`std::thread::Builder::new`);
+      * inherent method (self receiver): additionally `.name(` on any receiver;
+      * free fn: `name(` / `name::<…>(` or `name` passed as a value (`(name)`, `, name,`), not a
+        method call, not `UpperCase::name`, not with a foreign path root."""
+    b = caller.body
+    names = [target.name] + ([target.name + "_async"] if target.async_generic else [])
+    for n in names:
+        if target.impl:
+            quals = [target.impl] + (["Self"] if caller.impl == target.impl else [])
+            for q in quals:
+                for m in re.finditer(r"\b" + q + r"\s*(?:::\s*<[^;{}]*?>\s*)?::\s*" + n + r"\b", b):
+                    if q != "Self":
+                        root = path_root(b, m.start())
+                        if is_foreign_root(root) or (root is None and caller.file != target.file and foreign_import(caller.file, q)):
+                            continue
+                    return True
+            if target.has_self and not target.trait and re.search(r"\.\s*" + n + r"\s*(?:::\s*<[^;{}()]*?>\s*)?\(", b):
+                return True
+        else:
+            for m in re.finditer(r"\b" + n + r"\b", b):
+                j = m.start() - 1
+                while j >= 0 and b[j].isspace():
+                    j -= 1
+                if j >= 0 and b[j] == ".":
+                    continue
+                if b[max(0, j - 1):j + 1] == "fn":
+                    continue
+                root = path_root(b, m.start())
+                if root is not None and (root[:1].isupper() or is_foreign_root(root)):
+                    continue
+                e = m.end()
+                while e < len(b) and b[e].isspace():
+                    e += 1
+                nxt = b[e:e + 1]
+                call = nxt == "(" or b[e:e + 2] == "::"
+                value = nxt in (")", ",") and j >= 0 and b[j] in "(,"
+                if call or value:
+                    return True
+    return False
+
+
+def tls_closure(fns, tl_statics):
+    """(static touchers, dynamic touchers): every fn that reaches a thread-local static through the
+    name-resolved call graph, with its `writes` flag. Trait-impl methods with a `self` receiver
+    (dynamic dispatch) that reach it are reported separately and are NOT propagated further."""
+    reach = {}
+    for rel, name in tl_statics:
+        rx = re.compile(r"\b" + re.escape(name) + r"\b")
+        used_in_fn = 0
+        for f in fns:
+            if f.file != rel:
+                continue
+            hits = list(rx.finditer(f.body))
+            if not hits:
+                continue
+            writes = False
+            for h in hits:
+                tail = f.body[h.end():h.end() + 40]
+                mm = re.match(r"\s*\.\s*(\w+)", tail)
+                if not mm:
+                    fail(f"{rel}: {f.qual}: use of thread-local `{name}` that is not a method call")
+                meth = mm.group(1)
+                if meth in ("with_borrow", "get"):
+                    pass
+                elif meth in ("set", "with_borrow_mut", "replace", "take", "with", "try_with"):
+                    writes = True  # `with` hands out the cell: assume it may write
+                else:
+                    fail(f"{rel}: {f.qual}: unknown accessor `{name}.{meth}`")
+            reach[id(f)] = reach.get(id(f), False) or writes
+            used_in_fn += len(hits)
+        total = len(rx.findall(files_blank[rel]))
+        if total > used_in_fn + 1:
+            fail(f"{rel}: thread-local `{name}` is used outside a fn body ({total} occurrences, {used_in_fn} in fns)")
+    by_id = {id(f): f for f in fns}
+    is_dyn = lambda f: bool(f.trait) and f.has_self  # noqa: E731
+    todo = [by_id[i] for i in reach]
+    while todo:
+        tgt = todo.pop()
+        if is_dyn(tgt):
+            continue
+        w = reach[id(tgt)]
+        for f in fns:
+            if f is tgt or tgt.name not in f.body:
+                continue
+            if id(f) in reach and (reach[id(f)] or not w):
+                continue
+            if references(f, tgt):
+                reach[id(f)] = reach.get(id(f), False) or w
+                todo.append(f)
+    stat = [(by_id[i], w) for i, w in reach.items() if not is_dyn(by_id[i])]
+    dyn = [(by_id[i], w) for i, w in reach.items() if is_dyn(by_id[i])]
+    return stat, dyn
+
+
+files_blank = {}
+
+
+# --------------------------------------------------------------------------------------------
+# non-state nondeterminism
+
+
+def nondet_rows(fns, hash_fields):
+    rows = []
+    for f in fns:
+        for kind, rx in NONDET:
+            if rx.search(f.body):
+                rows.append((f.file, f.qual, kind))
+        # names of HashMap/HashSet typed things visible in this fn: declared struct fields of the
+        # crate (any type), parameters and annotated / constructed locals
+        names = set()
+        for pn, pt in f.params:
+            if HASH_TY.search(pt):
+                names.add(pn)
+        for m in re.finditer(r"\blet\s+(?:mut\s+)?([a-z_]\w*)\s*(?::\s*([^=;]+))?=\s*([^;]{0,80})", f.body):
+            if (m.group(2) and HASH_TY.search(m.group(2))) or re.match(r"\s*(?:std::collections::)?Hash(?:Map|Set)\s*(?:::\s*<[^;]*?>\s*)?::", m.group(3)):
+                names.add(m.group(1))
+        hit = False
+        for n in names:
+            if re.search(r"\b" + n + r"\s*\.\s*" + ITER_METHODS + r"\s*\(", f.body) or re.search(r"\bin\s+&?(?:mut\s+)?" + n + r"\b\s*\{", f.body):
+                hit = True
+        for n in hash_fields.get(f.file, ()):
+            if re.search(r"\.\s*" + n + r"\s*\.\s*" + ITER_METHODS + r"\s*\(", f.body) or re.search(r"\bin\s+&?(?:mut\s+)?[\w\.]*\.\s*" + n + r"\s*\{", f.body):
+                hit = True
+        if hit:
+            rows.append((f.file, f.qual, "hashIter"))
+    return sorted(set(rows))
+
+
+# --------------------------------------------------------------------------------------------
+
+
+CACHE_NAME = re.compile(r"cache|memo(?!ry)", re.I)
+WRITE_METHODS = r"(?:insert|remove|clear|retain|entry|extend|push|drain|take|append|truncate|get_or_insert\w*|replace|swap_remove|pop)"
+
+
+def cache_rows(fns, cache_fields):
+    rows = []
+    for tname, fname in sorted(cache_fields):
+        rx = re.compile(r"\.\s*" + fname + r"\s*(?:\.\s*" + WRITE_METHODS + r"\s*\(|=(?!=)|\.\s*\w+_mut\s*\()|&\s*mut\s+[\w\.]*\." + fname + r"\b")
+        for f in fns:
+            if rx.search(f.body):
+                rows.append((f.file, f"{tname}::{fname}", f.qual))
+    return sorted(set(rows))
+
+
+def q(s):
+    if '"' in s or "\\" in s or "\n" in s:
+        fail(f"cannot quote {s!r}")
+    return '"' + s + '"'
+
+
+def lean_list(name, ty, rows, fmt):
+    body = ",\n".join("  " + fmt(r) for r in rows)
+    return f"def {name} : List ({ty}) := [\n{body}\n]\n" if rows else f"def {name} : List ({ty}) := []\n"
 
 
 def main():
-    rows = []
-    files = []
-    for d, _, fs in os.walk(SRC):
-        if "verif_hooks" in d:
-            continue
-        for f in fs:
-            if f.endswith(".rs") and f != "test.rs":
-                files.append(os.path.join(d, f))
-    files.sort()
-    for path in files:
-        rel = os.path.relpath(path, SRC)
-        text = strip_tests(open(path, errors="replace").read())
-        # thread_local blocks
-        tl_spans = []
-        for m in re.finditer(r"thread_local!\s*[\(\{]", text):
-            end = text.find("\n);", m.end())
-            end2 = text.find("\n}", m.end())
-            e = min(x for x in (end, end2) if x >= 0) if max(end, end2) >= 0 else len(text)
-            tl_spans.append((m.start(), e))
-        lz_spans = []
-        for m in re.finditer(r"lazy_static!\s*\{", text):
-            e = text.find("\n}", m.end())
-            lz_spans.append((m.start(), e if e >= 0 else len(text)))
-        for m in re.finditer(r"^[ \t]*(?:pub(?:\([a-z]+\))?\s+)?static\s+(mut\s+)?(ref\s+)?([A-Za-z_][A-Za-z0-9_]*)\s*:\s*([^=;]+?)\s*(=|;)", text, re.M):
-            line_start = text.rfind("\n", 0, m.start()) + 1
-            if text[line_start:m.start()].strip().startswith("//"):
-                continue
-            # skip statics that are inside fn bodies of #[test] fns already cut; keep everything else
-            name, ty = m.group(3), m.group(4)
-            pos = m.start()
-            if any(a <= pos <= b for a, b in tl_spans):
-                kind = "threadLocal"
-            elif m.group(1):
-                kind = "mutableGlobal"
-            elif MUT.search(ty):
-                kind = "mutableGlobal"
-            elif any(a <= pos <= b for a, b in lz_spans) or LAZY.search(ty):
-                kind = "lazyConst"
-            else:
-                kind = "const"
-            rows.append((rel, name, kind))
-        if rel == "context.rs":
-            for m in re.finditer(r"^\s*(\w+)\((OnceLock<[^\n]+)\),?\s*$", text, re.M):
-                # enum payload: find enclosing enum name
-                en = re.findall(r"enum\s+(\w+)\s*\{", text[:m.start()])
-                rows.append((rel, f"{en[-1] if en else '?'}::{m.group(1)}", "perContextCell"))
-            for m in re.finditer(r"^\s*(?:pub(?:\([a-z]+\))?\s+)?(\w+)\s*:\s*(Atomic\w+|Mutex<[^\n]+|RwLock<[^\n]+)\s*,", text, re.M):
-                rows.append((rel, m.group(1), "perContextCell"))
+    files = live_files()
+    for rel, (raw, t) in files.items():
+        files_blank[rel] = t
+    rows, lazy_inits, interior, carriers, hash_fields, cache_fields = [], [], [], set(), {}, set()
+    for rel in sorted(files):
+        t = files[rel][1]
+        fwd, _ = R.build_pairs(t)
+        r, li = static_rows(rel, t, fwd)
+        rows += r
+        lazy_inits += li
+        for tname, fields in type_items(rel, t, fwd):
+            for fname, fty in fields:
+                w = wrapper_of(fty)
+                if w:
+                    interior.append((rel, f"{tname}::{fname}", w))
+                    if rel == "context.rs":
+                        rows.append((rel, fname if re.match(r"(Atomic|Mutex|RwLock)", w) else f"{tname}::{fname}", "perContextCell"))
+                if CTX_TY.search(fty) and tname not in ("Context", "Settings"):
+                    carriers.add(tname)
+                if HASH_TY.search(fty):
+                    hash_fields.setdefault(rel, set()).add(fname)
+                if CACHE_NAME.search(fname):
+                    cache_fields.add((tname, fname))
     if not rows:
         fail("no items found")
-    for r in rows:
-        for s in r[:2]:
-            if '"' in s or "\\" in s:
-                fail(f"cannot quote {s!r}")
-    body = ",\n".join(f'  ("{r[0]}", "{r[1]}", Kind.{r[2]})' for r in rows)
+    carriers |= {"Context", "Settings"}
+    fns = collect_fns(files)
+    for rel in files:
+        for seg in rel[:-3].split("/"):
+            CRATE_MODS.add(seg)
+    tl_statics = [(r[0], r[1]) for r in rows if r[2] == "threadLocal"]
+    stat, dyn = tls_closure(fns, tl_statics)
+    touch = sorted({(f.file, f.qual, w) for f, w in stat})
+    dyn_touch = sorted({(f.file, f.qual, f.trait) for f, w in dyn})
+    touch_w = {(a, b): w for a, b, w in touch}
+    takes = {(f.file, f.qual) for f in fns
+             if any(CTX_TY.search(pt) for _, pt in f.params) or (f.has_self and f.impl in carriers)}
+    # one row per fn that takes a context or reaches the thread-local settings: (file, fn, takesContext, reachesTls)
+    ctx_or_tls = sorted((a, b, (a, b) in takes, (a, b) in touch_w) for a, b in takes | set(touch_w))
+    api = sorted({(f.file, f.qual, f.deprecated, (f.file, f.qual) in touch_w, touch_w.get((f.file, f.qual), False))
+                  for f in fns if (f.is_pub and f.impl in ("Settings", "Context")) or f.trait == "IntoSettings"})
+    linits = lazy_init_flags(files, lazy_inits)
+    nondet = nondet_rows(fns, hash_fields)
+    caches = cache_rows(fns, cache_fields)
+    cache_decl = sorted(f"{a}::{b}" for a, b in cache_fields)
+
+    b = lambda x: "true" if x else "false"  # noqa: E731
+    parts = [
+        lean_list("sharedState", "String × String × Kind", rows, lambda r: f"({q(r[0])}, {q(r[1])}, Kind.{r[2]})"),
+        lean_list("tlsTouchers", "String × String × Bool", touch, lambda r: f"({q(r[0])}, {q(r[1])}, {b(r[2])})"),
+        lean_list("tlsDynTouchers", "String × String × String", dyn_touch, lambda r: f"({q(r[0])}, {q(r[1])}, {q(r[2])})"),
+        lean_list("contextCarriers", "String", sorted(carriers), q),
+        lean_list("ctxOrTls", "String × String × Bool × Bool", ctx_or_tls, lambda r: f"({q(r[0])}, {q(r[1])}, {b(r[2])}, {b(r[3])})"),
+        lean_list("settingsApi", "String × String × Bool × Bool × Bool", api, lambda r: f"({q(r[0])}, {q(r[1])}, {b(r[2])}, {b(r[3])}, {b(r[4])})"),
+        lean_list("interiorFields", "String × String × String", sorted(interior), lambda r: f"({q(r[0])}, {q(r[1])}, {q(r[2])})"),
+        lean_list("lazyInits", "String × String × Bool × Bool", linits, lambda r: f"({q(r[0])}, {q(r[1])}, {b(r[2])}, {b(r[3])})"),
+        lean_list("cacheFields", "String", cache_decl, q),
+        lean_list("cacheFieldWriters", "String × String × String", caches, lambda r: f"({q(r[0])}, {q(r[1])}, {q(r[2])})"),
+        lean_list("nondetSites", "String × String × String", nondet, lambda r: f"({q(r[0])}, {q(r[1])}, {q(r[2])})"),
+    ]
+    body = "\n".join(parts)
     text = f"""import C2paModel.Model.C24
 /-
 GENERATED on every check run by translators/c24_shared_state.py — do not edit.
-Every process-wide item (`static`, `lazy_static!`, `thread_local!`) of sdk/src outside test
-modules, plus the OnceLock / atomic cells of `Context`, with a syntactic classification.
+Source: the module tree of /repo/sdk/src below lib.rs, test / verification-hook items removed by
+brace matching. See the translator's doc comment for what each table means.
 -/
 namespace C2pa.C24.Gen
 open C2pa.C24
 
-def sharedState : List (String × String × Kind) := [
 {body}
-]
-
 end C2pa.C24.Gen
 """
     old = open(OUT).read() if os.path.exists(OUT) else None
     if old != text:
         os.makedirs(os.path.dirname(OUT), exist_ok=True)
         open(OUT, "w").write(text)
-    nonconst = [r for r in rows if r[2] != "const"]
-    info = {"table": "C24SharedState", "rows": len(rows), "non_const": nonconst,
+    info = {"table": "C24SharedState", "files": len(files), "fns": len(fns), "statics": len(rows),
+            "non_const": [r for r in rows if r[2] != "const"], "tlsTouchers": len(touch), "tlsDynTouchers": [r[1] for r in dyn_touch], "takesContext": len(takes), "ctxOrTls": len(ctx_or_tls),
+            "interiorFields": len(interior), "lazyInits": len(linits), "nondetSites": len(nondet),
             "sha256": hashlib.sha256(body.encode()).hexdigest()[:16], "changed": old != text}
     print("TABLE " + json.dumps(info))
 
